@@ -11,7 +11,31 @@ CHECKS = [
     },
 ]
 
+XH_NOTE = ("Trusted base: CrossHair 0.0.110's models of Python ints/lists/dicts and z3; 'Confirmed over all paths' is CrossHair's verdict within the pre: bounds; "
+           "each condition has an automatically generated reachability twin (negated postcondition) that must be refuted; counterexamples are replayed on plain CPython before being reported.")
+
+CHECKS += [
+    {
+        "property_id": "C03", "engine": "symx", "category": "model_checking",
+        "technique": "bounded symbolic execution of Simulator.simulate on a fully symbolic unitary block + z3 (polynomial identities against a permutation-sum permanent)",
+        "text": "For every complex value of the entries of the circuit's unitary block and every loss value, every amplitude returned by the real Simulator (array, pair index) equals perm(U_full[rows,cols])/sqrt(prod n!) with herald photons inserted on herald modes (in != out allowed) and vacuum on loss modes, for all inputs/outputs within the photon bound; lossless bs/ps layouts give unit vectors for all parameter values.",
+        "design_ref": "DESIGN.md section 4 C03", "note": SYMX_NOTE + " thewalrus.perm is stubbed by a definitional permanent.",
+    },
+    {
+        "property_id": "C13", "engine": "symx", "category": "model_checking",
+        "technique": "symbolic execution of the real gate constructors in exact algebraic-number arithmetic + z3 (for-all-theta identities)",
+        "text": "Every gate constructor is executed on exact algebraic constants (2**0.5, 2**-0.25, sqrt(3/sqrt2-2), ...) incl. the library's own check_unitary; for every dual-rail basis input the heralded amplitudes are proportional to the named gate matrix with the stated squared scalar, and for heralded/single-qubit gates vanish outside the qubit subspace; rotation angle is a solver variable.",
+        "design_ref": "DESIGN.md section 4 C13", "note": SYMX_NOTE,
+    },
+    {
+        "property_id": "C18", "engine": "crosshair+symx", "category": "model_checking",
+        "technique": "CrossHair symbolic execution (z3) of State/AnnotatedState/herald utilities with symbolic lists and ints; symx+z3 for dB conversions modulo log/exp axioms",
+        "text": "11 CrossHair conditions confirmed over all paths within list-length/occupation bounds: equality iff occupations equal (and equal str, the hash input), concatenation/merge/slice algebra, immutability, annotated-state label-order invariance, herald insert/remove round trip for any herald positions and key order, fock_basis counting, seed validation; dB<->decimal round trips decided by z3 modulo the stated log/exp axioms.",
+        "design_ref": "DESIGN.md section 4 C18", "note": XH_NOTE,
+    },
+]
+
 _TODO = "check not built yet in this round; see DESIGN.md section 4 for the plan"
 NOT_APPLICABLE = [
-    {"property_id": f"C{i:02d}", "reason": _TODO} for i in range(2, 20)
+    {"property_id": f"C{i:02d}", "reason": _TODO} for i in range(2, 20) if f"C{i:02d}" not in {c["property_id"] for c in CHECKS}
 ]
